@@ -153,33 +153,10 @@ Section Comb.
       + apply member3; [apply Hl; right; now right | apply S; right; now right].
   Qed.
 
-  (* 2D: the bounding-box pruned Evaluate returns the value of one of the operands *)
-  Lemma min_index_range (vs : list IV) i md mi0 : (mi0 < i)%nat ->
-    (snd (@min_index ROps vs i md mi0) < i + length vs)%nat.
-  Proof.
-    revert i md mi0; induction vs as [|v r IH]; intros i md mi0 Hlt; cbn [min_index length snd]; [lia|].
-    destruct (_ || _); (eapply Nat.lt_le_trans; [apply IH; lia | lia]).
-  Qed.
+  (* 2D: the bounding-box pruned Evaluate returns the value of one of the operands (Sdf/Union2R.v) *)
   Lemma evaluate_plain_in (ops : list (IV * R)) : ops <> [] ->
     In (@evaluate ROps false Rmin ops) (map snd ops).
-  Proof.
-    intros Hne. unfold evaluate.
-    match goal with |- context [@min_index ?a ?b ?c ?d ?e] => destruct (@min_index a b c d e) as [md mi] eqn:Emi end.
-    assert (Hlt : (mi < length ops)%nat).
-    { destruct ops as [|[v x] r]; [congruence|]. cbn [map fst min_index] in Emi.
-      change (oltb ROps (oneg ROps (o1 ROps)) (o0 ROps)) with (Rltb (-1) 0) in Emi.
-      assert (Rltb (-1) 0 = true) as E by (apply Rltb_true; lra). rewrite E in Emi. cbn [orb] in Emi.
-      assert (R : (snd (md, mi) < 1 + length (map fst r))%nat) by (rewrite <- Emi; apply min_index_range; lia).
-      cbn [snd] in R. rewrite map_length in R. cbn [length]. lia. }
-    cbv beta iota zeta. rewrite prune_loop_kept.
-    match goal with |- context [kept ?vm0 _ _ _] => set (vm := vm0) end.
-    pose proof (kept_has_mi vm mi [] ops) as Hk. cbn [length] in Hk. rewrite Nat.sub_0_r in Hk.
-    specialize (Hk ltac:(lia) ltac:(lia)).
-    destruct (kept vm mi ops 0) as [|k ks] eqn:Ek; [destruct Hk|].
-    change (o0 ROps) with 0. rewrite slow_loop_true.
-    apply (kept_sub vm mi ops 0). rewrite Ek.
-    destruct (lmin_in k ks) as [->|Hin]; [now left | now right].
-  Qed.
+  Proof. exact (evaluate_in ops). Qed.
 
   Theorem union2_cls (l : list RObj2) o :
     (forall x, In x l -> cls2 D2 x) -> @k_union2 ROps MinDef l = Some o -> cls2 D2 o.
